@@ -42,6 +42,11 @@ type Link struct {
 	accept   chan stream.Stream
 	opens    atomic.Int64
 
+	// curUUID, when non-zero, is what GetUUID reports instead of UUID (the
+	// uuid the link was built with, which stays the link's key in the
+	// reference table): a link whose reported uuid changes while established.
+	curUUID atomic.Uint64
+
 	mu     sync.Mutex
 	opened []*Pipe // far ends of streams opened on this link by the code under test
 }
@@ -83,7 +88,20 @@ func short(p peer.ID) string {
 func Short(p peer.ID) string { return short(p) }
 
 // GetUUID implements link.Link.
-func (l *Link) GetUUID() uint64 { return l.UUID }
+func (l *Link) GetUUID() uint64 {
+	if u := l.curUUID.Load(); u != 0 {
+		return u
+	}
+	return l.UUID
+}
+
+// SetReportedUUID makes GetUUID report u from now on (0 = the original uuid
+// again). The field UUID (the uuid the link had when it was built and
+// established) is not touched.
+func (l *Link) SetReportedUUID(u uint64) { l.curUUID.Store(u) }
+
+// ReportedUUID is what GetUUID returns now.
+func (l *Link) ReportedUUID() uint64 { return l.GetUUID() }
 
 // GetTransportUUID implements link.Link.
 func (l *Link) GetTransportUUID() uint64 { return l.TptUUID }
